@@ -602,6 +602,10 @@ def _build_c04(inputs):
         with L.Workdir() as w:
             img = w.file("img.akai", raw)
             out = w.sub("out")
+            if inputs.get("into_used_directory"):
+                # the destination already holds LONGER files of the same names (an earlier export of another disc)
+                big = expand_akai({"partitions": [{"volumes": [_vol("V", [_sample(f["name"], 900, 77) for f in files])]}]})
+                L.do_export(w.file("big.akai", L.aw.build_akai_image(big)), out)
             stdout, err = L.do_export(img, out)
             return {"files": L.read_tree(out), "stdout": stdout, "error": type(err).__name__ if err else None}
     return {"call": run, "env": {}}
@@ -646,6 +650,8 @@ def _small_c04(tier, seed, shard=(0, 1)):
                                    "rate": rnd.choice((0, 1, 8000, 44100, 65535)), "loop_type": rnd.randint(0, 3), "words": rnd.randint(0, 50),
                                    "loops": [{"at": rnd.randint(0, 60), "fine": 0, "coarse": rnd.randint(0, 60), "duration": rnd.choice((0, 5, 9999))}
                                              for _ in range(rnd.randint(0, 8))]} for _ in range(10)], "stereo": True})
+    cases.append({"headers": [{"words": 10}, {"words": 0}, {"words": 33, "loops": [{"at": 5, "fine": 0, "coarse": 2, "duration": 9999}], "loop_type": 0}],
+                  "stereo": True, "into_used_directory": True})
     for k, c in enumerate(cases):
         if k % shard[1] == shard[0]:
             yield c
